@@ -104,10 +104,43 @@ def report_stage(out, tier, replay=None):
     return len(jobs)
 
 
+def window_stage(out, tier, replay=None):
+    """with -f / -t the taxable events shown are exactly the taxable transactions dated (own local calendar day) inside the
+    window: judged on the shared windowed runs of the L4 checks.  Histories whose local dates are not monotone in time are
+    not judged under a to-date (finding F9, recorded against C06/C07/C09/C10/C19)."""
+    from harness import l4
+    from harness.props.c09 import dates_monotone
+    if replay is not None:
+        core.impl_env_setup()
+        cases, jobs = [replay["case"]], [[0, replay.get("from"), replay.get("to")]]
+        impl = [hist.impl_compute(replay["case"], from_day=replay.get("from"), to_day=replay.get("to"))]
+    else:
+        data = l4.run(tier)
+        cases, jobs, impl = data["base"]["cases"], data["jobs"], data["impl"]
+    n = 0
+    for (idx, f, t), i in zip(jobs, impl):
+        if (f is None and t is None) or "ok" not in i:
+            continue
+        c = cases[idx]
+        if t is not None and not dates_monotone(c):
+            continue
+        n += 1
+        lo = -10 ** 9 if f is None else f
+        hi = 10 ** 9 if t is None else t
+        want = sorted((e["row"], e["cls"]) for e in hist.taxable_oracle(c) if lo <= hist.local_day(e["ts"]) <= hi)
+        got = sorted((r, CLS.get(cn)) for r, cn, *_ in i["ok"]["events"])
+        if want != got:
+            d = sorted(set(want) ^ set(got))
+            out.violation(f"taxable events shown for window ({f}, {t}): (row, table) {d[:4]} "
+                          f"{'missing' if d and d[0] in want else 'unexpected'}; taxable transactions dated in the window: {want[:12]}, shown {got[:12]}",
+                          {"case": c, "from": f, "to": t}, tags={"taxable-set-window"})
+    return n
+
+
 def run(tier, build, replay=None):
     out = core.Outcome("C03", tier)
     proofs = core.check_proofs(build, "C03.v")
-    if replay and "multi" in replay:          # replay of a tax-report job of the report stage
+    if replay and ("multi" in replay or ("case" in replay and "ins" not in replay)):   # replay of a report job / a windowed run
         data = {"cases": [], "impl": [], "events": []}
     elif replay:
         data = l2.run_cases([replay])          # (an end-to-end case goes through the files and parse_ods again)
@@ -137,9 +170,11 @@ def run(tier, build, replay=None):
             else:
                 mism += 1
                 out.violation(f"model fails ({ev[0]}) where the implementation succeeds", c, tags={"correspondence"}, found_input=False)
-    n_reports = 0
+    n_reports = n_windowed = 0
     if not replay or (isinstance(replay, dict) and "multi" in replay):
         n_reports = report_stage(out, tier, replay)
+    if not replay or (isinstance(replay, dict) and "case" in replay and "ins" not in replay):
+        n_windowed = window_stage(out, tier, replay)
     core.proofs_verdict(out, proofs, build, "C03.v")
     out.coverage.update({
         "evaluations": len(data["cases"]),
@@ -149,6 +184,8 @@ def run(tier, build, replay=None):
         "traces_validated_against_impl": len(data["cases"]),
         "correspondence_mismatches": mism,
         "type_distribution": types_seen,
+        "tax_reports_judged": n_reports,
+        "windowed_runs_judged_on_the_taxable_events_shown": n_windowed,
         "end_to_end_stream": hist.ods_stats(data["cases"]),
     })
     out.assumptions = ["the oracle taxes a transfer iff its crypto fee is non-zero, whatever the fee is worth (histories with fees worth less than "
